@@ -751,7 +751,9 @@ class CSSSerializer(object):
                 def getstr(x):
                     ans = x.value
                     if hasattr(ans, 'cssText'):  # happens for comments
-                        ans = ans.cssText
+                        # a comment which is not kept (prefs.keepComments)
+                        # still separates the tokens before and after it
+                        ans = ans.cssText or ' '
                     elif x.type == 'STRING':
                         # the parser saved the string's value, not the token
                         ans = helper.string(ans)
